@@ -244,10 +244,19 @@ def parse_text(text, want=None):
     import chartparse.chart as chart_mod
     with capture_logs() as cap:
         try:
-            c = chart_mod.Chart.from_file(io.StringIO(text, newline=""), want_tracks=to_pairs(want))
+            if want is None:
+                # no selection: the parameter is left to its default (callers that pass nothing are the common case)
+                c = chart_mod.Chart.from_file(io.StringIO(text, newline=""))
+            else:
+                c = chart_mod.Chart.from_file(io.StringIO(text, newline=""), want_tracks=to_pairs(want))
             exc = None
         except Exception as e:  # noqa: BLE001
             c, exc = None, e
     if exc is not None:
         return None, exc, "(Err %s)" % errkind(exc)
-    return c, None, "(Ok (%s, %s))" % (r_chart(c), cap.rendered())
+    try:
+        return c, None, "(Ok (%s, %s))" % (r_chart(c), cap.rendered())
+    except Exception as e:  # noqa: BLE001
+        # a returned chart that cannot even be walked (a list that is None, an attribute that is gone): reported as an outcome of its
+        # own, which agrees with no model result and satisfies no specification
+        return c, None, "(Err EOther)"
